@@ -693,3 +693,20 @@ V("gt-perm-axis-always-dropped", ["C03", "C08"], GT, "fire", (ETB, "        if n
 V("gt-exterior-facets-permuted", ["C03", "C08"], GT, "benign", (ETB, "            integral_type == \"interior_facet\"\n            or integral_type == \"ridge\"", "            integral_type in (\"interior_facet\",)\n            or integral_type == \"ridge\""))
 V("gt-offset-without-component", ["C02", "C08"], GT, "fire", (ETB, "        offset = cell_offset + t[\"offset\"]", "        offset = cell_offset"))
 V("gt-refactor-stack-helper", ["C03", "C08"], GT, "benign", (ETB, "                    t = new_table[0]\n                    t[\"array\"] = np.vstack([td[\"array\"] for td in new_table])\n                elif tdim == 3:", "                    t = dict(new_table[0])\n                    stacked = np.vstack([td[\"array\"] for td in new_table])\n                    t[\"array\"] = stacked\n                elif tdim == 3:"))
+
+# ---- MT-ANALYSE / GEN-IRBLOCKS / PREFIX-OFFSETS with disabled coefficients ------------------------------
+MTF = "ffcx/ir/analysis/modified_terminals.py"
+IRI = "ffcx/ir/integral.py"
+V("mta-derivatives-unsorted", ["C05", "C01"], ["MT-ANALYSE"], "fire", (MTF, "    local_derivatives = tuple(sorted(local_derivatives))", "    local_derivatives = tuple(local_derivatives)"))
+V("mta-restriction-lost", ["C01", "C05"], ["MT-ANALYSE"], "fire", (MTF, "            restriction = t._side\n", "            restriction = None if t._side == \"+\" else t._side\n"))
+V("mta-symmetry-ignored", ["C05", "C01"], ["MT-ANALYSE"], "fire", (MTF, "            base_symmetry = element.symmetry()", "            base_symmetry = {}"))
+V("mta-component-reversed", ["C05", "C01"], ["MT-ANALYSE"], "fire", (MTF, "        component = tuple(component)\n", "        component = tuple(reversed(component))\n"))
+V("mta-refactor-early", ["C05", "C01"], ["MT-ANALYSE"], "benign", (MTF, "    if component is None:\n        component = ()\n    else:\n        component = tuple(component)", "    component = () if component is None else tuple(component)"))
+V("irb-argkeys-first-use-order", ["C02", "C01"], ["GEN-IRBLOCKS"], "fire", (IRI, "    _argkeys: set[int] = set()\n    for w in argument_factorization:\n        _argkeys = _argkeys | set(w)\n    argkeys = list(_argkeys)", "    argkeys = list(dict.fromkeys(ai for w in argument_factorization for ai in w))"))
+V("irb-argkeys-sorted", ["C02", "C01"], ["GEN-IRBLOCKS"], "benign", (IRI, "    argkeys = list(_argkeys)", "    argkeys = sorted(_argkeys)"))
+V("irb-restrictions-of-uniform", ["C02", "C08"], ["GEN-IRBLOCKS"], "fire", (IRI, "            if not trs[i].is_uniform:\n                r = F.nodes[ai][\"mt\"].restriction", "            if trs[i].is_uniform:\n                r = F.nodes[ai][\"mt\"].restriction"))
+V("irb-dofmap-without-stride", ["C02", "C01", "C08"], ["GEN-IRBLOCKS"], "fire", (IRI, "            dofmap = tuple(begin + i * tr.block_size for i in range(num_dofs))", "            dofmap = tuple(begin + i for i in range(num_dofs))"))
+V("irb-piecewise-any", ["C01", "C08"], ["GEN-IRBLOCKS"], "fire", (IRI, "        all_factors_piecewise = all(F.nodes[ifi[0]][\"status\"] == \"piecewise\" for ifi in fi_ci)", "        all_factors_piecewise = any(F.nodes[ifi[0]][\"status\"] == \"piecewise\" for ifi in fi_ci)"))
+V("irb-diagonal-keeps-all", ["C10"], ["GEN-IRBLOCKS", "OPT-GATE"], "fire", (IRI, "            and blockmap[0] != blockmap[1]\n", "            and blockmap[0] is None\n"))
+V("irb-ones-tables-emitted", ["C08", "C02"], ["GEN-IRBLOCKS"], "benign", (IRI, "    for name in sorted(active_table_names):\n", "    for name in sorted(set(active_table_names)):\n"))
+V("po-skip-disabled", ["C05", "C01"], ["PREFIX-OFFSETS"], "fire", (REP, "            _offset += width * element_dimensions[el]\n", "            if itg_data.enabled_coefficients[i]:\n                _offset += width * element_dimensions[el]\n"))
